@@ -408,6 +408,7 @@ func (r *HarnessResult) merge(p *HarnessResult) {
 	r.PassBoundHit += p.PassBoundHit
 	r.RacePathCaps += p.RacePathCaps
 	r.ConcCombos += p.ConcCombos
+	r.PrunedCombos += p.PrunedCombos
 	r.Events += p.Events
 	r.Candidates = append(r.Candidates, p.Candidates...)
 	r.Inconclusive = append(r.Inconclusive, p.Inconclusive...)
